@@ -1,6 +1,8 @@
 package ctl
 
 import (
+	"context"
+
 	. "fxproj/models"
 	om "fxproj/other/models"
 
@@ -62,4 +64,16 @@ func (c *GammaController) SearchWidgets(tenant, region, zone string, limit int) 
 // @ErrorResponse(201) Already issued
 func (c *GammaController) IssueReceipt(serial string) (om.Receipt, error) {
 	return om.Receipt{Serial: serial}, nil
+}
+
+type DeltaController struct {
+	runtime.GleeceController
+}
+
+// Liveness probe of a controller that carries no documentation comment at all: no tag, no route prefix
+// @Method(GET)
+// @Route(/healthz)
+// @Query(verbose)
+func (c *DeltaController) Healthz(verbose bool, ctx context.Context) error {
+	return nil
 }
